@@ -417,6 +417,34 @@ func Aux(r *rand.Rand) (a channel.Aux) {
 }
 
 // Params returns valid parameters for the given parties.
+// SplitKeyParties returns n participants registered with the backends 0 and 1 each, where
+// participant split has DIFFERENT keys under the two backends: no single signature can be valid for
+// both of its addresses. Nil without extra backends.
+func SplitKeyParties(r *rand.Rand, n, split int) []Party {
+	if len(ExtraBackends) == 0 {
+		return nil
+	}
+	ps := make([]Party, n)
+	for i := range ps {
+		a := Account(r)
+		b, _ := a.Address().MarshalBinary()
+		addr := new(simwallet.Address)
+		if err := addr.UnmarshalBinary(b); err != nil {
+			panic(err)
+		}
+		other := addr
+		if i == split {
+			ob, _ := Account(r).Address().MarshalBinary()
+			other = new(simwallet.Address)
+			if err := other.UnmarshalBinary(ob); err != nil {
+				panic(err)
+			}
+		}
+		ps[i] = Party{Acc: a, Addr: map[wallet.BackendID]wallet.Address{B: addr, ExtraBackends[0]: addrFor(ExtraBackends[0], other)}}
+	}
+	return ps
+}
+
 func Params(r *rand.Rand, ps []Party, app channel.App) *channel.Params {
 	parts := make([]map[wallet.BackendID]wallet.Address, len(ps))
 	for i, p := range ps {
